@@ -633,6 +633,12 @@ func aboutLine(c ssa.Value, line ssa.Value, depth int) bool {
 		_, cx := x.X.(*ssa.Const)
 		_, cy := x.Y.(*ssa.Const)
 		return (side(x.X) && cy) || (side(x.Y) && cx)
+	case *ssa.Call:
+		// strings.HasPrefix(line, "<marker>"): a test of how the line starts
+		if sc := x.Call.StaticCallee(); sc != nil && sc.Pkg != nil && sc.Pkg.Pkg.Path() == "strings" && sc.Name() == "HasPrefix" && len(x.Call.Args) == 2 {
+			_, isConst := x.Call.Args[1].(*ssa.Const)
+			return x.Call.Args[0] == line && isConst
+		}
 	}
 	return false
 }
